@@ -236,6 +236,9 @@ def derived(case):
     c = case["cfg"]
     d = {"tr_rotation_sensitive": False, "rank_deficient_unfoldings": case["ten"]["op"] == "matching"
          or case["ten"].get("fam") in ("lowmultilinear", "lowtt", "rankdeficient", "integer")}
+    # symeig_svd asked for more singular vectors than the tensor has non-zero singular values (F-05a territory)
+    p = len(case["ten"]["vals"]) if case["ten"]["op"] in ("matching", "rotated") else None
+    d["symeig_zero_sv_requested"] = bool(case["svd"] == "symeig_svd" and p is not None and any(int(r) > p for r in c["rank"]))
     if c["op"] == "tr" and c["mode"] >= 2 and len(c["rank"]) == len(c["shape"]) + 1:
         r = c["rank"]
         d["tr_rotation_sensitive"] = any(r[i - 1] != r[i] for i in range(1, c["mode"]))
@@ -385,6 +388,8 @@ def run(chk, opts):
     # graded tier: configurations of SVDDecomp.GradedShapes on rotated matching tensors with graded spectra
     for k, c in enumerate(graded):
         methods = svds if thorough else [("truncated_svd", "truncated_svd", "symeig_svd", "truncated_svd", "randomized_svd")[k % 5]]
+        if c["op"] in ("tt", "ttm"):          # the train is where wide unfoldings are truncated: more tensors, every call path
+            methods = list(methods) + ["truncated_svd", "truncated_svd"]
         for m, svd in enumerate(methods):
             ten = draw_rotated(rng, c["shape"])
             if svd == "symeig_svd":
@@ -392,6 +397,11 @@ def run(chk, opts):
             case = {"cfg": c, "ten": ten, "svd": svd, "dtype": "float64",
                     "iters": iters[(k + m) % len(iters)] if c["op"] == "tucker" else 0}
             case.update(rank_form(rng, c, k + 7 * m))
+            if c["op"] in ("tt", "ttm") and m and case["via"] == "function":
+                case["via"] = ("class", "refit")[m % 2]
+                if case["via"] == "refit":
+                    case["pre"] = [2] * len(c["shape"])
+                    case["rspec"] = "list" if case["rspec"] in ("tuple", "npint") else case["rspec"]
             case["pow2"] = 0
             cases.append(case)
     # rank specifications the routine resolves itself ('same', float), on a matching tensor of every shape
